@@ -47,6 +47,16 @@ class B:
         raise TypeError("B used as Python bool; use is_true()/is_false()")
 
 
+namer = None  # set by the VM: callback that replaces a large formula by a definitional variable
+NAME_THRESHOLD = 48
+
+
+def compact(g: "B") -> "B":
+    if namer is not None and g.sz > NAME_THRESHOLD:
+        return namer(g)
+    return g
+
+
 TRUE = B("T")
 FALSE = B("F")
 
